@@ -4,7 +4,8 @@
     model of the hand-written splitting algorithm of the condition-tree parser (split_logical_operator /
     parse_when_clause after the repairs listed in known_findings.json).  The regular expressions (rexile) that
     carve a file into rules and a rule into header / when / then are not modelled. *)
-From RRE Require Import Base.Sx Base.Float Base.Num Model.ExprShape Model.Forward Model.ForwardSpec Model.Grl Proofs.GrlProofs Proofs.GrlTreeProofs.
+From RRE Require Import Base.Sx Base.Float Base.Num Model.ExprShape Model.Forward Model.ForwardSpec Model.Grl Proofs.GrlProofs Proofs.GrlTreeProofs Proofs.SourceTablesProofs.
+From RRE Require Generated.Consts.
 Open Scope Z_scope.
 
 (** String literals are opaque to the condition splitter: whatever stands between two equal quote characters
@@ -44,6 +45,16 @@ Print Assumptions C04_ordinary_text_inert.
 Theorem C04_condition_tree_roundtrip : forall g, wf_g g -> parse_when_text (pr_g g) = skel g.
 Proof. exact parse_when_text_pr. Qed.
 Print Assumptions C04_condition_tree_roundtrip.
+
+(** Tie to the source text (Generated/Consts.v is rewritten from /repo by tools/consts.py on every run): every variant named
+    by Operator::from_str is a model operator and none is missing; the text the model prints for an operator is mapped back
+    to that operator by Operator::from_str; the GRL condition regex offers exactly the operator texts of the model's table in
+    the same order (the leftmost alternative wins) and Operator::from_str maps each to the operator the model's table gives.
+    Adding, dropping, renaming or reordering an operator in either source table breaks this theorem. *)
+Theorem C04_operator_tables_are_the_sources :
+  variants_covered = true /\ printed_texts_parse_back = true /\ grl_table_is_source = true.
+Proof. exact source_tables_tied. Qed.
+Print Assumptions C04_operator_tables_are_the_sources.
 
 (** ... and the leaves of the typed core are such texts: ordinary characters (no quote, parenthesis, & or |),
     optionally followed by a string literal with ANY content but its own quote character *)
